@@ -333,13 +333,13 @@ def run_instance(args):
                     res['xval_ok'] += 1
                 if len(res['samples']) < want_samples:
                     res['samples'].append(dict(instance=params.get('name'), witness_inputs=inputs, choices=choices,
-                                               proved=[l for l, _, _ in conds][:12],
+                                               proved=sorted(set(l for l, _, _ in conds))[:12],
                                                observed={k: obs.get(k) for k in list(obs)[:6]},
                                                notes=_jsonable(ctx.notes)))
             elif len(res['samples']) < want_samples:
                 mm = E.get_model()
                 res['samples'].append(dict(instance=params.get('name'), witness_inputs=model_inputs(mm, ctx),
-                                           choices=choices, proved=[l for l, _, _ in conds][:12],
+                                           choices=choices, proved=sorted(set(l for l, _, _ in conds))[:12],
                                            notes=_jsonable(ctx.notes)))
             return True
 
